@@ -26,7 +26,7 @@ def run(run, replay=None):
     cat = Catalog()
     seqs = _wcommon.writer_sequences(run, rng)
     traces = _wcommon.execute(run, seqs, cat, CHK)
-    can = writer_canaries(traces, rng, want=('bytes',))
+    can = run.tolerant(lambda: writer_canaries(traces, rng, want=('bytes',)))
     run.judge('Trace_WriteRead', traces + can, cat.tables(), canary_ids=[c['id'] for c in can],
               describe=describe)
     run.assumptions += ['per-character tables of non-UTF codecs come from Python codecs (canonical name)',
